@@ -72,38 +72,138 @@ theorem disj_fetch (d acc : Dict) (t : String) (dflt v w : Val) (hd : Disj d acc
 
 def Sound (C : Codec) : Prop := ∀ k v b rest, C.enc k v = some b → C.dec k (b ++ rest) = some (v, rest)
 
+/-- the 1-bits at the end of a code word are at most `virt k` -/
+def OnesBound (C : Codec) : Prop :=
+  ∀ k v b n, C.enc k v = some b → (b.drop n).all id = true → (b.drop n).length ≤ C.virt k
+
+/-- `real` is what is left of the written bits `b` (followed by `rest`) when a bounded block ends
+    after the first `n` of them: the bits past the end are all 1 and are not stored -/
+def Cut (b real rest : List Bool) : Prop :=
+  ∃ n, n ≤ b.length ∧ real = b.take n ++ rest ∧ (b.drop n).all id = true ∧ (n < b.length → rest = [])
+
+/-- outside a block the written bits are all there; inside a block they may be cut -/
+def RealOf (blk : Bool) (b real rest : List Bool) : Prop :=
+  if blk then Cut b real rest else real = b ++ rest
+
+theorem cut_whole (b rest : List Bool) : Cut b (b ++ rest) rest :=
+  ⟨b.length, Nat.le_refl _, by simp, by simp, fun h => absurd h (Nat.lt_irrefl _)⟩
+
+theorem realOf_whole (blk : Bool) (b rest : List Bool) : RealOf blk b (b ++ rest) rest := by
+  unfold RealOf; split
+  · exact cut_whole b rest
+  · rfl
+
+theorem realOf_nil (blk : Bool) (real rest : List Bool) (h : RealOf blk [] real rest) : real = rest := by
+  unfold RealOf at h; split at h
+  · obtain ⟨n, _, h2, _, _⟩ := h; simpa using h2
+  · simpa using h
+
+theorem all_id_append (a b : List Bool) : (a ++ b).all id = true ↔ a.all id = true ∧ b.all id = true := by
+  simp [List.all_append]
+
+/-- splitting what is left of `b1 ++ b2` into what is left of `b1` and what is left of `b2` -/
+theorem realOf_append (blk : Bool) (b1 b2 real rest : List Bool) (h : RealOf blk (b1 ++ b2) real rest) :
+    ∃ mid, RealOf blk b1 real mid ∧ RealOf blk b2 mid rest ∧
+      (blk = false → real.length - mid.length = b1.length) := by
+  unfold RealOf at *
+  cases blk with
+  | false =>
+    simp only [Bool.false_eq_true, if_false] at *
+    exact ⟨b2 ++ rest, by rw [h, List.append_assoc], rfl, fun _ => by rw [h]; simp⟩
+  | true =>
+    simp only [if_true] at *
+    obtain ⟨n, hn, hreal, hall, hrest⟩ := h
+    by_cases hc : b1.length ≤ n
+    · -- the cut is inside (or after) b2
+      refine ⟨b2.take (n - b1.length) ++ rest, ⟨b1.length, Nat.le_refl _, ?_, by simp, fun h => absurd h (Nat.lt_irrefl _)⟩,
+        ⟨n - b1.length, by simp at hn; omega, rfl, ?_, ?_⟩, fun h => by cases h⟩
+      · rw [hreal, List.take_append]; simp [List.take_of_length_le hc, List.append_assoc]
+      · rw [List.drop_append] at hall
+        simp [List.drop_of_length_le hc] at hall
+        simpa using hall
+      · intro hlt; apply hrest; simp; omega
+    · -- the cut is inside b1: everything after it is 1s
+      have hlt : n < b1.length := by omega
+      have hr : rest = [] := hrest (by simp; omega)
+      rw [List.drop_append, all_id_append] at hall
+      have h0 : n - b1.length = 0 := by omega
+      rw [h0, List.drop_zero] at hall
+      refine ⟨[], ⟨n, by omega, ?_, hall.1, fun _ => rfl⟩, ⟨0, by omega, by simp [hr], by simpa using hall.2, fun _ => hr⟩,
+        fun h => by cases h⟩
+      rw [hreal, hr, List.take_append]; simp [h0]
+
+theorem all_true_eq_replicate : ∀ (l : List Bool), l.all id = true → l = List.replicate l.length true
+  | [], _ => rfl
+  | x :: xs, h => by
+    simp only [List.all_cons, Bool.and_eq_true, id] at h
+    rw [List.length_cons, List.replicate_succ, h.1, ← all_true_eq_replicate xs h.2]
+
 variable (C : Codec)
 
-theorem serPrims_des (hS : Sound C) : ∀ (ks : List Prim) (vs : List Val) (b : List Bool), serPrims C ks vs = some b →
-    ∀ rest, desPrims C ks (b ++ rest) = some (vs, rest)
-  | [], [], b, h, rest => by simp [serPrims] at h; subst h; rfl
-  | [], _ :: _, b, h, rest => by simp [serPrims] at h
-  | k :: ks, [], b, h, rest => by simp [serPrims] at h
-  | k :: ks, v :: vs, b, h, rest => by
+/-- one primitive: what the serialiser wrote is read back, also when the block ended inside it -/
+theorem decPrim_sound (hS : Sound C) (hO : OnesBound C) (blk : Bool) (k : Prim) (v : Leaf) (b real rest : List Bool)
+    (he : C.enc k v = some b) (hr : RealOf blk b real rest) : decPrim C blk k real = some (v, rest) := by
+  unfold RealOf at hr
+  cases blk with
+  | false =>
+    simp only [Bool.false_eq_true, if_false] at hr
+    simp only [decPrim, Bool.false_eq_true, if_false, hr, hS k v b rest he]
+  | true =>
+    simp only [if_true] at hr
+    obtain ⟨n, hn, hreal, hall, hrest⟩ := hr
+    simp only [decPrim, if_true]
+    by_cases hc : n = b.length
+    · subst hc
+      rw [hreal, List.take_length, List.append_assoc, hS k v b _ he]
+      simp
+    · have hr0 : rest = [] := hrest (by omega)
+      have hbound := hO k v b n he hall
+      have htail := all_true_eq_replicate _ hall
+      generalize hm : (b.drop n).length = m at hbound htail
+      have hbeq : b = b.take n ++ List.replicate m true := by
+        conv => lhs; rw [← List.take_append_drop n b]
+        rw [htail]
+      have e : real ++ List.replicate (C.virt k) true = b ++ List.replicate (C.virt k - m) true := by
+        rw [hreal, hr0, List.append_nil]
+        conv => rhs; rw [hbeq]
+        rw [List.append_assoc, List.replicate_append_replicate]
+        congr 2; omega
+      rw [e, hS k v b _ he]
+      simp [hr0]
+
+theorem serPrims_des (hS : Sound C) (hO : OnesBound C) (blk : Bool) : ∀ (ks : List Prim) (vs : List Val) (b : List Bool),
+    serPrims C ks vs = some b → ∀ real rest, RealOf blk b real rest → desPrims C blk ks real = some (vs, rest)
+  | [], [], b, h, real, rest, hr => by
+    simp [serPrims] at h; subst h
+    rw [realOf_nil blk real rest hr]; rfl
+  | [], _ :: _, b, h, _, _, _ => by simp [serPrims] at h
+  | k :: ks, [], b, h, _, _, _ => by simp [serPrims] at h
+  | k :: ks, v :: vs, b, h, real, rest, hr => by
     cases v with
     | leaf x =>
       simp only [serPrims] at h
       cases he : C.enc k x with
       | none => rw [he] at h; simp at h
       | some b1 =>
-        cases hr : serPrims C ks vs with
-        | none => rw [he, hr] at h; simp at h
+        cases hp : serPrims C ks vs with
+        | none => rw [he, hp] at h; simp at h
         | some bs =>
-          rw [he, hr] at h; simp at h; subst h
-          simp only [desPrims, List.append_assoc]
-          rw [hS k x b1 (bs ++ rest) he]
+          rw [he, hp] at h; simp at h; subst h
+          obtain ⟨mid, h1, h2, _⟩ := realOf_append blk b1 bs real rest hr
+          simp only [desPrims]
+          rw [decPrim_sound C hS hO blk k x b1 real mid he h1]
           simp only
-          rw [serPrims_des hS ks vs bs hr rest]
+          rw [serPrims_des hS hO blk ks vs bs hp mid rest h2]
     | dict _ => simp [serPrims] at h
     | list _ => simp [serPrims] at h
 
 theorem len_sub (b rest : List Bool) : (b ++ rest).length - rest.length = b.length := by simp
 
 mutual
-theorem serStmt_des (hS : Sound C) : ∀ (s : Stmt) (pos : Nat) (d acc : Dict) (b : List Bool) (acc' d' : Dict),
-    serStmt C pos s d acc = some (b, acc', d') → Disj d acc →
-    ∀ rest, desStmt C pos s acc (b ++ rest) = some (acc', rest) ∧ Disj d' acc'
-  | .prim t k, pos, d, acc, b, acc', d', h, hd, rest => by
+theorem serStmt_des (hS : Sound C) (hO : OnesBound C) : ∀ (s : Stmt) (blk : Bool) (pos : Nat) (d acc : Dict) (b : List Bool) (acc' d' : Dict),
+    serStmt C blk pos s d acc = some (b, acc', d') → Disj d acc →
+    (∀ real rest, RealOf blk b real rest → desStmt C blk pos s acc real = some (acc', rest)) ∧ Disj d' acc'
+  | .prim t k, blk, pos, d, acc, b, acc', d', h, hd => by
     simp only [serStmt] at h
     split at h
     · rename_i v hg
@@ -113,10 +213,10 @@ theorem serStmt_des (hS : Sound C) : ∀ (s : Stmt) (pos : Nat) (d acc : Dict) (
         rw [he] at h; simp at h
         obtain ⟨h1, h2, h3⟩ := h; subst h1 h2 h3
         have ⟨hn, hdj⟩ := disj_consume d acc t (.leaf v) _ hd hg
-        simp only [desStmt, hn, Bool.false_eq_true, if_false, hS k v b1 rest he]
-        exact ⟨trivial, hdj⟩
+        refine ⟨fun real rest hr => ?_, hdj⟩
+        simp only [desStmt, hn, Bool.false_eq_true, if_false, decPrim_sound C hS hO blk k v b1 real rest he hr]
     · cases h
-  | .primList t ks, pos, d, acc, b, acc', d', h, hd, rest => by
+  | .primList t ks, blk, pos, d, acc, b, acc', d', h, hd => by
     simp only [serStmt] at h
     split at h
     · rename_i vs hg
@@ -126,10 +226,10 @@ theorem serStmt_des (hS : Sound C) : ∀ (s : Stmt) (pos : Nat) (d acc : Dict) (
         rw [he] at h; simp at h
         obtain ⟨h1, h2, h3⟩ := h; subst h1 h2 h3
         have ⟨hn, hdj⟩ := disj_fetch d acc t _ (.list vs) _ hd hg
-        simp only [desStmt, hn, Bool.false_eq_true, if_false, serPrims_des C hS ks vs b1 he rest]
-        exact ⟨trivial, hdj⟩
+        refine ⟨fun real rest hr => ?_, hdj⟩
+        simp only [desStmt, hn, Bool.false_eq_true, if_false, serPrims_des C hS hO blk ks vs b1 he real rest hr]
     · cases h
-  | .sub t body, pos, d, acc, b, acc', d', h, hd, rest => by
+  | .sub t body, blk, pos, d, acc, b, acc', d', h, hd => by
     simp only [serStmt] at h
     split at h
     · rename_i dsub hg
@@ -138,55 +238,67 @@ theorem serStmt_des (hS : Sound C) : ∀ (s : Stmt) (pos : Nat) (d acc : Dict) (
         simp at h
         obtain ⟨h1, h2, h3⟩ := h; subst h1 h2 h3
         have ⟨hn, hdj⟩ := disj_fetch d acc t _ (.dict used) _ hd hg
-        have ih := serBody_des hS body pos dsub [] b1 used [] hb (by intro k _; rfl) rest
-        simp only [desStmt, hn, Bool.false_eq_true, if_false, ih.1]
-        exact ⟨trivial, hdj⟩
+        have ih := serBody_des hS hO body blk pos dsub [] b1 used [] hb (by intro k _; rfl)
+        refine ⟨fun real rest hr => ?_, hdj⟩
+        simp only [desStmt, hn, Bool.false_eq_true, if_false, ih.1 real rest hr]
       · cases h
     · cases h
-  | .subList t bodies, pos, d, acc, b, acc', d', h, hd, rest => by
+  | .subList t bodies, blk, pos, d, acc, b, acc', d', h, hd => by
     simp only [serStmt] at h
     split at h
     · rename_i vs hg
-      cases hb : serBodies C pos bodies vs with
+      cases hb : serBodies C blk pos bodies vs with
       | none => rw [hb] at h; cases h
       | some r =>
         obtain ⟨b1, used⟩ := r
         rw [hb] at h; simp at h
         obtain ⟨h1, h2, h3⟩ := h; subst h1 h2 h3
         have ⟨hn, hdj⟩ := disj_fetch d acc t _ (.list used) _ hd hg
-        have ih := serBodies_des hS bodies pos vs b1 used hb rest
-        simp only [desStmt, hn, Bool.false_eq_true, if_false, ih]
-        exact ⟨trivial, hdj⟩
+        have ih := serBodies_des hS hO bodies blk pos vs b1 used hb
+        refine ⟨fun real rest hr => ?_, hdj⟩
+        simp only [desStmt, hn, Bool.false_eq_true, if_false, ih real rest hr]
     · cases h
-  | .block t len body, pos, d, acc, b, acc', d', h, hd, rest => by
+  | .block t len body, true, pos, d, acc, b, acc', d', h, hd => by simp [serStmt] at h
+  | .block t len body, false, pos, d, acc, b, acc', d', h, hd => by
     simp only [serStmt] at h
-    cases hb : serBody C pos body d acc with
+    cases hb : serBody C true pos body d acc with
     | none => rw [hb] at h; cases h
     | some r =>
       obtain ⟨b1, acc1, d1⟩ := r
       rw [hb] at h; simp only at h
       split at h
-      · rename_i hle
+      · rename_i hones
         split at h
         · rename_i p hg
           split at h
           · rename_i hp
             simp at h
             obtain ⟨h1, h2, h3⟩ := h; subst h1 h2 h3
-            have ih := serBody_des hS body pos d acc b1 acc1 d1 hb hd p
+            have ih := serBody_des hS hO body true pos d acc b1 acc1 d1 hb hd
             have ⟨hn, hdj⟩ := disj_consume d1 acc1 t (.leaf (.bits p)) _ ih.2 hg
-            have hlen : (b1 ++ p).length = len := by simp; omega
-            have htake : (b1 ++ p ++ rest).take len = b1 ++ p := by
-              rw [← hlen]; exact List.take_left' rfl
-            have hdrop : (b1 ++ p ++ rest).drop len = rest := by
-              rw [← hlen]; exact List.drop_left' rfl
-            have hge : ¬ (b1 ++ p ++ rest).length < len := by simp; omega
-            simp only [desStmt, hge, if_false, htake, ih.1, hn, Bool.false_eq_true, hdrop]
-            exact ⟨trivial, hdj⟩
+            refine ⟨fun real rest hr => ?_, hdj⟩
+            unfold RealOf at hr
+            simp only [Bool.false_eq_true, if_false] at hr
+            subst hr
+            have hlen : (b1.take len ++ p).length = len := by
+              simp only [List.length_append, List.length_take]; omega
+            have htake : (b1.take len ++ p ++ rest).take len = b1.take len ++ p := List.take_left' hlen
+            have hdrop : (b1.take len ++ p ++ rest).drop len = rest := List.drop_left' hlen
+            have hge : ¬ (b1.take len ++ p ++ rest).length < len := by
+              simp only [List.length_append, List.length_take]; omega
+            have hcut : RealOf true b1 (b1.take len ++ p) p := by
+              unfold RealOf; simp only [if_true]
+              by_cases hc : b1.length ≤ len
+              · refine ⟨b1.length, Nat.le_refl _, ?_, by simp, fun h => absurd h (Nat.lt_irrefl _)⟩
+                rw [List.take_length, List.take_of_length_le hc]
+              · have hp0 : p = [] := List.eq_nil_of_length_eq_zero (by omega)
+                exact ⟨len, by omega, rfl, hones, fun _ => hp0⟩
+            simp only [desStmt, hge, if_false, htake, ih.1 _ _ hcut, hn, Bool.false_eq_true, hdrop]
           · cases h
         · cases h
       · cases h
-  | .align t, pos, d, acc, b, acc', d', h, hd, rest => by
+  | .align t, true, pos, d, acc, b, acc', d', h, hd => by simp [serStmt] at h
+  | .align t, false, pos, d, acc, b, acc', d', h, hd => by
     simp only [serStmt] at h
     split at h
     · rename_i p hg
@@ -195,14 +307,17 @@ theorem serStmt_des (hS : Sound C) : ∀ (s : Stmt) (pos : Nat) (d acc : Dict) (
         simp at h
         obtain ⟨h1, h2, h3⟩ := h; subst h1 h2 h3
         have ⟨hn, hdj⟩ := disj_consume d acc t (.leaf (.bits p)) _ hd hg
+        refine ⟨fun real rest hr => ?_, hdj⟩
+        unfold RealOf at hr
+        simp only [Bool.false_eq_true, if_false] at hr
+        subst hr
         have hge : ¬ (p ++ rest).length < alignBits pos := by simp; omega
         have htake : (p ++ rest).take (alignBits pos) = p := by rw [← hp]; exact List.take_left' rfl
         have hdrop : (p ++ rest).drop (alignBits pos) = rest := by rw [← hp]; exact List.drop_left' rfl
         simp only [desStmt, hn, Bool.false_eq_true, if_false, hge, htake, hdrop]
-        exact ⟨trivial, hdj⟩
       · cases h
     · cases h
-  | .computed t v, pos, d, acc, b, acc', d', h, hd, rest => by
+  | .computed t v, blk, pos, d, acc, b, acc', d', h, hd => by
     simp only [serStmt] at h
     split at h
     · cases h
@@ -210,64 +325,75 @@ theorem serStmt_des (hS : Sound C) : ∀ (s : Stmt) (pos : Nat) (d acc : Dict) (
       simp at h
       obtain ⟨h1, h2, h3⟩ := h; subst h1 h2 h3
       have hacc : acc.has t = false := by simpa using hfresh
-      simp only [desStmt, hacc, Bool.false_eq_true, if_false, List.nil_append]
-      refine ⟨trivial, ?_⟩
-      intro k hk
-      rw [has_erase] at hk
-      simp only [Bool.and_eq_true] at hk
-      rw [has_append, hd k hk.1]
-      have : (t == k) = false := by
-        have := hk.2; simp at this ⊢; exact fun h => this h.symm
-      simp [this]
-theorem serBody_des (hS : Sound C) : ∀ (body : List Stmt) (pos : Nat) (d acc : Dict) (b : List Bool) (acc' d' : Dict),
-    serBody C pos body d acc = some (b, acc', d') → Disj d acc →
-    ∀ rest, desBody C pos body acc (b ++ rest) = some (acc', rest) ∧ Disj d' acc'
-  | [], pos, d, acc, b, acc', d', h, hd, rest => by
+      refine ⟨fun real rest hr => ?_, ?_⟩
+      · rw [realOf_nil blk real rest hr]
+        simp only [desStmt, hacc, Bool.false_eq_true, if_false]
+      · intro k hk
+        rw [has_erase] at hk
+        simp only [Bool.and_eq_true] at hk
+        rw [has_append, hd k hk.1]
+        have : (t == k) = false := by
+          have := hk.2; simp at this ⊢; exact fun h => this h.symm
+        simp [this]
+theorem serBody_des (hS : Sound C) (hO : OnesBound C) : ∀ (body : List Stmt) (blk : Bool) (pos : Nat) (d acc : Dict) (b : List Bool) (acc' d' : Dict),
+    serBody C blk pos body d acc = some (b, acc', d') → Disj d acc →
+    (∀ real rest, RealOf blk b real rest → desBody C blk pos body acc real = some (acc', rest)) ∧ Disj d' acc'
+  | [], blk, pos, d, acc, b, acc', d', h, hd => by
     simp [serBody] at h
     obtain ⟨h1, h2, h3⟩ := h; subst h1 h2 h3
-    exact ⟨rfl, hd⟩
-  | s :: ss, pos, d, acc, b, acc', d', h, hd, rest => by
+    refine ⟨fun real rest hr => ?_, hd⟩
+    rw [realOf_nil blk real rest hr]; rfl
+  | s :: ss, blk, pos, d, acc, b, acc', d', h, hd => by
     simp only [serBody] at h
-    cases h1 : serStmt C pos s d acc with
+    cases h1 : serStmt C blk pos s d acc with
     | none => rw [h1] at h; cases h
     | some r =>
       obtain ⟨b1, acc1, d1⟩ := r
       rw [h1] at h; simp only at h
-      cases h2 : serBody C (pos + b1.length) ss d1 acc1 with
+      cases h2 : serBody C blk (if blk then pos else pos + b1.length) ss d1 acc1 with
       | none => rw [h2] at h; cases h
       | some r2 =>
         obtain ⟨bs, acc2, d2⟩ := r2
         rw [h2] at h; simp at h
         obtain ⟨e1, e2, e3⟩ := h; subst e1 e2 e3
-        have i1 := serStmt_des hS s pos d acc b1 acc1 d1 h1 hd (bs ++ rest)
-        have i2 := serBody_des hS ss (pos + b1.length) d1 acc1 bs acc2 d2 h2 i1.2 rest
-        simp only [desBody, List.append_assoc, i1.1]
-        have : (b1 ++ (bs ++ rest)).length - (bs ++ rest).length = b1.length := len_sub b1 (bs ++ rest)
-        rw [this]
-        exact i2
-theorem serBodies_des (hS : Sound C) : ∀ (bodies : List (List Stmt)) (pos : Nat) (vs : List Val) (b : List Bool) (useds : List Val),
-    serBodies C pos bodies vs = some (b, useds) →
-    ∀ rest, desBodies C pos bodies (b ++ rest) = some (useds, rest)
-  | [], pos, [], b, useds, h, rest => by
-    simp [serBodies] at h; obtain ⟨h1, h2⟩ := h; subst h1 h2; rfl
-  | [], pos, _ :: _, b, useds, h, rest => by simp [serBodies] at h
-  | body :: bodies, pos, [], b, useds, h, rest => by
+        have i1 := serStmt_des hS hO s blk pos d acc b1 acc1 d1 h1 hd
+        have i2 := serBody_des hS hO ss blk (if blk then pos else pos + b1.length) d1 acc1 bs acc2 d2 h2 i1.2
+        refine ⟨fun real rest hr => ?_, i2.2⟩
+        obtain ⟨mid, r1, r2, hl⟩ := realOf_append blk b1 bs real rest hr
+        simp only [desBody, i1.1 real mid r1]
+        have hpos : (if blk then pos else pos + (real.length - mid.length)) = (if blk then pos else pos + b1.length) := by
+          cases blk with
+          | true => rfl
+          | false => simp only [Bool.false_eq_true, if_false]; rw [hl rfl]
+        rw [hpos]
+        exact i2.1 mid rest r2
+theorem serBodies_des (hS : Sound C) (hO : OnesBound C) : ∀ (bodies : List (List Stmt)) (blk : Bool) (pos : Nat) (vs : List Val) (b : List Bool) (useds : List Val),
+    serBodies C blk pos bodies vs = some (b, useds) →
+    ∀ real rest, RealOf blk b real rest → desBodies C blk pos bodies real = some (useds, rest)
+  | [], blk, pos, [], b, useds, h, real, rest, hr => by
+    simp [serBodies] at h; obtain ⟨h1, h2⟩ := h; subst h1 h2
+    rw [realOf_nil blk real rest hr]; rfl
+  | [], blk, pos, _ :: _, b, useds, h, _, _, _ => by simp [serBodies] at h
+  | body :: bodies, blk, pos, [], b, useds, h, real, rest, hr => by
     simp only [serBodies] at h
     split at h
     · rename_i b1 used hb
-      cases h2 : serBodies C (pos + b1.length) bodies [] with
+      cases h2 : serBodies C blk (if blk then pos else pos + b1.length) bodies [] with
       | none => rw [h2] at h; cases h
       | some r =>
         obtain ⟨bs, us⟩ := r
         rw [h2] at h; simp at h
         obtain ⟨e1, e2⟩ := h; subst e1 e2
-        have i1 := serBody_des hS body pos [] [] b1 used [] hb (by intro k _; rfl) (bs ++ rest)
-        have i2 := serBodies_des hS bodies (pos + b1.length) [] bs us h2 rest
-        simp only [desBodies, List.append_assoc, i1.1]
-        have : (b1 ++ (bs ++ rest)).length - (bs ++ rest).length = b1.length := len_sub b1 (bs ++ rest)
-        rw [this, i2]
+        have i1 := serBody_des hS hO body blk pos [] [] b1 used [] hb (by intro k _; rfl)
+        obtain ⟨mid, r1, r2, hl⟩ := realOf_append blk b1 bs real rest hr
+        have hpos : (if blk then pos else pos + (real.length - mid.length)) = (if blk then pos else pos + b1.length) := by
+          cases blk with
+          | true => rfl
+          | false => simp only [Bool.false_eq_true, if_false]; rw [hl rfl]
+        have i2 := serBodies_des hS hO bodies blk (if blk then pos else pos + b1.length) [] bs us h2 mid rest r2
+        simp only [desBodies, i1.1 real mid r1, hpos, i2]
     · cases h
-  | body :: bodies, pos, v :: vs, b, useds, h, rest => by
+  | body :: bodies, blk, pos, v :: vs, b, useds, h, real, rest, hr => by
     cases v with
     | leaf _ => simp [serBodies] at h
     | list _ => simp [serBodies] at h
@@ -275,17 +401,20 @@ theorem serBodies_des (hS : Sound C) : ∀ (bodies : List (List Stmt)) (pos : Na
       simp only [serBodies] at h
       split at h
       · rename_i b1 used hb
-        cases h2 : serBodies C (pos + b1.length) bodies vs with
+        cases h2 : serBodies C blk (if blk then pos else pos + b1.length) bodies vs with
         | none => rw [h2] at h; cases h
         | some r =>
           obtain ⟨bs, us⟩ := r
           rw [h2] at h; simp at h
           obtain ⟨e1, e2⟩ := h; subst e1 e2
-          have i1 := serBody_des hS body pos d [] b1 used [] hb (by intro k _; rfl) (bs ++ rest)
-          have i2 := serBodies_des hS bodies (pos + b1.length) vs bs us h2 rest
-          simp only [desBodies, List.append_assoc, i1.1]
-          have : (b1 ++ (bs ++ rest)).length - (bs ++ rest).length = b1.length := len_sub b1 (bs ++ rest)
-          rw [this, i2]
+          have i1 := serBody_des hS hO body blk pos d [] b1 used [] hb (by intro k _; rfl)
+          obtain ⟨mid, r1, r2, hl⟩ := realOf_append blk b1 bs real rest hr
+          have hpos : (if blk then pos else pos + (real.length - mid.length)) = (if blk then pos else pos + b1.length) := by
+            cases blk with
+            | true => rfl
+            | false => simp only [Bool.false_eq_true, if_false]; rw [hl rfl]
+          have i2 := serBodies_des hS hO bodies blk (if blk then pos else pos + b1.length) vs bs us h2 mid rest r2
+          simp only [desBodies, i1.1 real mid r1, hpos, i2]
       · cases h
 end
 
